@@ -198,6 +198,13 @@ int N2kUTF8ToUCS2(const char *str, unsigned char *buf, int bufLen) {
       *buf=0x00;
       buf++;
       usedBytes=N2kUTF8CharBytes(UTF8Chars,6);
+    } else {
+      // Not a lead byte of UTF8 character
+      *buf='?';
+      buf++;
+      *buf=0x00;
+      buf++;
+      usedBytes=1;
     }
   }
 
@@ -236,6 +243,11 @@ int N2kUTF8ToASCII(const char *str, unsigned char *buf, int bufLen) {
       *buf='?';
       buf++;
       usedBytes=N2kUTF8CharBytes(UTF8Chars,6);
+    } else {
+      // Not a lead byte of UTF8 character
+      *buf='?';
+      buf++;
+      usedBytes=1;
     }
   }
 
